@@ -254,7 +254,7 @@ class Function:
         out = []
         for i in self.real_insts():
             for o in list(i.ops) + list(i.args) + [x for x, _ in i.incoming] + \
-                    ([i.cond] if i.cond is not None and i.op != "br" else []) + \
+                    ([i.cond] if i.cond is not None else []) + \
                     ([i.callee_val] if i.callee_val is not None else []):
                 if o.k in ("inst", "arg") and o.name == name:
                     out.append(i)
@@ -362,13 +362,25 @@ class Function:
         return self.can_reach(inst, inst)
 
     def loops_headers(self):
-        """Blocks that are targets of back edges."""
+        """Targets of retreating edges of a depth-first traversal (covers irreducible loops such as
+        protothread switch dispatch into a loop body)."""
         out = set()
-        dom = self.dom()
-        for b in self.order:
-            for s in b.succs:
-                if s.name in dom[b.name]:
-                    out.add(s.name)
+        color = {}
+        stack = [(self.entry, iter(self.entry.succs))]
+        color[self.entry.name] = 1
+        while stack:
+            b, it = stack[-1]
+            nxt = next(it, None)
+            if nxt is None:
+                color[b.name] = 2
+                stack.pop()
+                continue
+            c = color.get(nxt.name, 0)
+            if c == 1:
+                out.add(nxt.name)
+            elif c == 0:
+                color[nxt.name] = 1
+                stack.append((nxt, iter(nxt.succs)))
         return out
 
 
